@@ -28,5 +28,6 @@ mod c14;
 mod c15;
 mod c18;
 mod c19;
+mod c20;
 mod premises;
 mod protocol;
